@@ -35,6 +35,7 @@ def run(chk, repo, tier):
     chk.clause('C16-f', 'gain form <-> einsum subscripts per gain.ndim; scalar gain lifted to 1-D', 4)
     chk.clause('C16-g', 'power cube: row d carries exponent order with d + order = model_order', 1)
     chk.clause('C16-h', 'floor, then clamp at zero, then cast; saturation clip precedes the gain; warning predicate = clip predicate', 4)
+    chk.clause('C16-j', 'every given capacity clips; clip and powers happen in a floating-point frame whatever the input type', 3)
     chk.clause('C16-i', 'colour pattern tiled over the native pixel grid (rows, cols of the cube) and replicated oversample x oversample', 3)
     chk.not_decided += ['linearity in photons and QE numerically', 'monotonicity']
 
@@ -187,7 +188,8 @@ def run(chk, repo, tier):
         facts = {nf.attr(gain, 'ndim').single_atom(): C(1)}
         _, paths, _ = analyse(repo, fa, facts=facts, config={'dtype': dt, 'warn_saturate': TRUE}, literal_tables=True)
         rets = [p for p in returns(paths)]
-        sat = [p for p in rets if any(c == cap and pol for c, pol, _ in p.conds)]
+        sat = [p for p in rets if _clip_events(p, cap) or any(c == cap and pol for c, pol, _ in p.conds)
+               or none_state(p, 'saturation_capacity') is False]
         if dt is not NONE:
             sat = [p for p in sat if none_state(p, 'dtype') is False]
         if not sat:
@@ -221,7 +223,7 @@ def run(chk, repo, tier):
             chk.ob('C16-h', 'D-order', fa.key, f'floor -> clamp at zero -> cast [{label}, {tagp}]',
                    bool(clamp and fl and cast_last), f'result {fmt(p.ret)[:160]}', fa.loc(p.node))
             # the frame the function works on (the input or a copy of it)
-            frames = [S('img'), nf.app('copy', S('img'))]
+            frames = [e.target for e in _clip_events(p, cap)] or [S('img'), nf.app('copy', S('img'))]
             clipped = [nf.app('setitem', fr, nf.app('lt', cap, fr), cap) for fr in frames]
             cube_src = None
             for lp in p.state.loops:
@@ -244,6 +246,80 @@ def run(chk, repo, tier):
                     for p in returns(paths2))
         loud = any(any(e.kind == 'call' and e.data.get('callee') == 'ext:warnings.warn' for e in p.events) for p in sat)
         chk.ob('C16-h', 'D-order', fa.key, f'warning only when requested and saturated [{label}]', quiet and loud, '', fa.loc())
+    capacity_rules(chk, repo, fa, 'C16-j')
+
+
+def _is_frame(v):
+    return isinstance(v, Poly) and nf.strip_apps(v, ('copy', 'cast', 'asarray', 'array', 'm:astype', 'm:copy', 'deepcopy')) == S('img')
+
+
+def _clip_events(p, cap):
+    """stores of the capacity into (a copy of) the frame"""
+    return [e for e in p.events if e.kind == 'write' and e.data.get('how') == 'setitem' and e.data.get('value') == cap
+            and _is_frame(e.target)]
+
+
+def capacity_rules(chk, repo, fa, clause):
+    """Every capacity that is given clips the frame (zero included: `if capacity:` reads 0 as "none"), and the frame the
+    capacity is stored into and whose powers are taken is a floating-point one whatever the caller's array holds: an
+    integer frame truncates a fractional capacity and wraps img**order."""
+    from .. import dtypes
+    from .c17 import _inherits_param
+    gain, cap = S('gain'), S('saturation_capacity')
+    facts = {nf.attr(gain, 'ndim').single_atom(): C(1)}
+    _, paths, _ = analyse(repo, fa, facts=facts, config={'dtype': NONE, 'warn_saturate': FALSE}, literal_tables=True)
+    ok_cap, det_cap, n_cap = True, '', 0
+    ok_clip = ok_pow = None
+    det_clip = det_pow = 'not found'
+    for p in returns(paths):
+        clips = _clip_events(p, cap)
+        valued = [a for a in nf.value_atoms(p.ret) if is_app(a, ('minimum', 'clip', 'where', 'fmin')) and cap.single_atom() in nf.value_atoms(Poly.atom(a))]
+        if not clips and not valued:
+            n_cap += 1
+            isnone = [True] if none_state(p, 'saturation_capacity') is True else []
+            falsy = [pol for c, pol, _ in p.conds if c == cap and not pol]
+            if falsy and not (isnone and isnone[0]):
+                ok_cap = False
+                det_cap = f'the frame is not clipped when the capacity is merely falsy [{conds_str(p)[:80]}]: a capacity of 0 is ' \
+                          'read as "no capacity" and every pixel passes unclipped'
+            elif not (isnone and isnone[0]) and ok_cap:
+                ok_cap, det_cap = None, f'unclipped path [{conds_str(p)[:80]}]'
+        known = dtypes.constraints(p.conds)
+        for e in clips:
+            ks = dtypes.kinds(e.target, known)
+            if ks <= dtypes.FLOATING:
+                ok_clip = True if ok_clip is None else ok_clip
+                det_clip = f'the capacity is stored into {fmt(e.target)[:80]}'
+            elif _inherits_param(e.target.single_atom(), known):
+                ok_clip = False
+                det_clip = f'the capacity is stored into {fmt(e.target)[:80]}, which keeps the element type of the caller\'s array: ' \
+                           'in an integer frame a fractional capacity is truncated before the gain is applied'
+        for lp in p.state.loops:
+            for nm, pre_v in lp['pre'].items():
+                if isinstance(pre_v, Poly) and any(is_app(x, ('repeat', 'tile', 'broadcast_to', 'stack')) for x in nf.value_atoms(pre_v)):
+                    powered = any(e.kind == 'write' and e.data.get('how') == 'setitem' and isinstance(e.data.get('value'), Poly)
+                                  and any(is_app(x, 'pow') for x in nf.value_atoms(e.data['value']))
+                                  for bs in lp['states'] for e in bs.events[lp['n_pre_events']:])
+                    if not powered:
+                        continue
+                    src = [x for x in nf.value_atoms(pre_v) if is_app(x, ('repeat', 'tile', 'broadcast_to', 'stack'))][0]
+                    base = src[2][0]
+                    ba = base.single_atom() if isinstance(base, Poly) else None
+                    while ba is not None and (ba[0] == 'idx' or is_app(ba, ('setitem',))):
+                        base = Poly.atom(ba[1]) if ba[0] == 'idx' else ba[2][0]
+                        ba = base.single_atom() if isinstance(base, Poly) else None
+                    ks = dtypes.kinds(pre_v, known)
+                    if ks <= dtypes.FLOATING or dtypes.kinds(base, known) <= dtypes.FLOATING:
+                        ok_pow = True if ok_pow is None else ok_pow
+                        det_pow = f'powers are taken in {fmt(base)[:80]}'
+                    elif ba is not None and _inherits_param(ba, known):
+                        ok_pow = False
+                        det_pow = f'the powers are stored back into a cube of {fmt(base)[:80]}, which keeps the element type of the ' \
+                                  'caller\'s array: img**order wraps in a small integer type'
+    chk.ob(clause, 'D-guard', fa.key, 'every capacity that is given clips the frame (a capacity of 0 included)',
+           ok_cap if n_cap else None, det_cap or f'{n_cap} unclipped path(s), all with the capacity None', fa.loc())
+    chk.ob(clause, 'T-dtype', fa.key, 'the capacity is stored into a floating-point frame', ok_clip, det_clip, fa.loc())
+    chk.ob(clause, 'T-dtype', fa.key, 'the powers of the gain polynomial are taken in floating point', ok_pow, det_pow, fa.loc())
 
 
 def bound_of(atom):
